@@ -78,6 +78,9 @@ example : (judge [.connect, .reply 220, .cmd .ehlo [], .reply 250, .cmd .mail []
     .cmd .rcpt [], .reply 250, .cmd .data []]).bad = true := by decide
 example : (judge [.connect, .cmd .ehlo []]).bad = true := by decide
 example : (judge [.connect, .reply 220, .cmd .ehlo [], .reply 250, .cmd .mail [], .reply 250, .cmd .rcpt [], .reply 250,
-    .cmd .data [], .reply 354, .eod, .reply 250, .cmd .rset [], .reply 250, .cmd .quit [], .reply 221, .close]).bad = false := by decide
+    .cmd .data [], .reply 354, .content 0 true, .eod, .reply 250, .cmd .rset [], .reply 250, .cmd .quit [], .reply 221, .close]).bad = false := by decide
+/-- ... and the end-of-data marker behind a rendering that failed half-way -/
+example : (judge [.connect, .reply 220, .cmd .ehlo [], .reply 250, .cmd .mail [], .reply 250, .cmd .rcpt [], .reply 250,
+    .cmd .data [], .reply 354, .content 0 false, .eod]).bad = true := by decide
 
 end GoMail.Props.C04
